@@ -8,7 +8,7 @@ for d in seeded/*/; do
   echo "$n $(echo "$out" | /venv/bin/python -c "
 import sys,json
 try:
-    o=json.loads(sys.stdin.read()); print('detected=%s nofail=%s demo_with=%s demo_without=%s'%(o.get('detected'),o.get('no_failing_input'),o.get('demo_with_change_rc'),o.get('demo_without_change_rc')))
+    o=json.loads(sys.stdin.read(), strict=False); print('detected=%s nofail=%s demo_with=%s demo_without=%s'%(o.get('detected'),o.get('no_failing_input'),o.get('demo_with_change_rc'),o.get('demo_without_change_rc')))
 except Exception as e: print('ERR',e)
 ")"
 done
